@@ -4498,7 +4498,7 @@ func (a *Agent) getFileTransferStream(streamID uint64) *fileTransferStream {
 
 // UploadFile uploads a local file or directory to a remote agent via stream-based transfer.
 // The transfer uses the mesh network to reach the target agent.
-func (a *Agent) UploadFile(ctx context.Context, targetID identity.AgentID, localPath, remotePath string, opts health.TransferOptions, progress health.FileTransferProgress) error {
+func (a *Agent) UploadFile(ctx context.Context, targetID identity.AgentID, localPath, remotePath string, opts health.TransferOptions, progress health.FileTransferProgress) (retErr error) {
 	// Check if file transfer is enabled locally (for validation config)
 	if a.fileStreamHandler == nil {
 		return fmt.Errorf("file transfer is disabled")
@@ -4567,6 +4567,15 @@ func (a *Agent) UploadFile(ctx context.Context, targetID identity.AgentID, local
 		crypto.ZeroKey(&ephPriv)
 		return ctx.Err()
 	}
+
+	// The stream is open at both ends from here on: whatever fails below, it is
+	// released on both sides (the server is told, the local record removed).
+	defer func() {
+		if retErr != nil {
+			a.WriteStreamClose(nextHop, streamID)
+			a.streamMgr.RemoveStream(streamID)
+		}
+	}()
 
 	// Derive session key from ECDH with remote agent's ephemeral public key
 	sharedSecret, err := crypto.ComputeECDH(ephPriv, result.RemoteEphemeral)
@@ -4767,7 +4776,7 @@ func (a *Agent) UploadFile(ctx context.Context, targetID identity.AgentID, local
 }
 
 // DownloadFile downloads a file or directory from a remote agent via stream-based transfer.
-func (a *Agent) DownloadFile(ctx context.Context, targetID identity.AgentID, remotePath, localPath string, opts health.TransferOptions, progress health.FileTransferProgress) error {
+func (a *Agent) DownloadFile(ctx context.Context, targetID identity.AgentID, remotePath, localPath string, opts health.TransferOptions, progress health.FileTransferProgress) (retErr error) {
 	// Check if file transfer is enabled locally
 	if a.fileStreamHandler == nil {
 		return fmt.Errorf("file transfer is disabled")
@@ -4831,6 +4840,15 @@ func (a *Agent) DownloadFile(ctx context.Context, targetID identity.AgentID, rem
 		crypto.ZeroKey(&ephPriv)
 		return ctx.Err()
 	}
+
+	// The stream is open at both ends from here on: whatever fails below, it is
+	// released on both sides (the server is told, the local record removed).
+	defer func() {
+		if retErr != nil {
+			a.WriteStreamClose(nextHop, streamID)
+			a.streamMgr.RemoveStream(streamID)
+		}
+	}()
 
 	// Derive session key from ECDH with remote agent's ephemeral public key
 	sharedSecret, err := crypto.ComputeECDH(ephPriv, openResult.RemoteEphemeral)
@@ -4927,7 +4945,7 @@ func (a *Agent) DownloadFile(ctx context.Context, targetID identity.AgentID, rem
 // DownloadFileStream opens a streaming download from a remote agent.
 // Returns a reader that streams file data directly without writing to disk.
 // The caller must call Close() on the result when done.
-func (a *Agent) DownloadFileStream(ctx context.Context, targetID identity.AgentID, remotePath string, opts health.TransferOptions) (*health.DownloadStreamResult, error) {
+func (a *Agent) DownloadFileStream(ctx context.Context, targetID identity.AgentID, remotePath string, opts health.TransferOptions) (_ *health.DownloadStreamResult, retErr error) {
 	// Check if file transfer is enabled locally
 	if a.fileStreamHandler == nil {
 		return nil, fmt.Errorf("file transfer is disabled")
@@ -4990,6 +5008,15 @@ func (a *Agent) DownloadFileStream(ctx context.Context, targetID identity.AgentI
 		crypto.ZeroKey(&ephPriv)
 		return nil, ctx.Err()
 	}
+
+	// The stream is open at both ends from here on: whatever fails below, it is
+	// released on both sides (the server is told, the local record removed).
+	defer func() {
+		if retErr != nil {
+			a.WriteStreamClose(nextHop, streamID)
+			a.streamMgr.RemoveStream(streamID)
+		}
+	}()
 
 	// Derive session key from ECDH with remote agent's ephemeral public key
 	sharedSecret, err := crypto.ComputeECDH(ephPriv, openResult.RemoteEphemeral)
